@@ -2659,6 +2659,21 @@ func (d *Data) ServeHTTP(uuid dvid.UUID, ctx *datastore.VersionedCtx, w http.Res
 		parts = parts[:len(parts)-1]
 	}
 
+	// Only serve the verbs of the documented API.  Several handlers treat anything that is not a GET
+	// as a write while the mutation gate for committed versions and read-only mode only recognizes
+	// POST, PUT and DELETE as mutations.
+	switch action {
+	case "get", "post", "delete":
+	case "head":
+		if len(parts) < 4 || parts[3] != "sparsevol" {
+			server.BadRequest(w, r, "HEAD is only available for endpoint /sparsevol")
+			return
+		}
+	default:
+		server.BadRequest(w, r, "labelarray only handles GET, POST, DELETE and HEAD HTTP verbs, not %q", r.Method)
+		return
+	}
+
 	// Handle POST on data -> setting of configuration
 	if len(parts) == 3 && action == "post" {
 		config, err := server.DecodeJSON(r)
